@@ -520,7 +520,7 @@ fn det_strategy(max_iters: u32) -> impl Strategy<Value = DetCase> {
 }
 
 pub fn run_all(ctx: &mut Ctx, replay: Option<&Path>) {
-    ctx.rule("determinism: case = (template with valid parameters and instance, or a generated configuration of shipped components; seed; thread-pool size in {1,2,3,4,8,16}; latency-jitter stream); the digest (every population level with solutions bit-exact and objectives, best individual, Evaluations, Iterations, serialised log) of a sequential unjittered run is compared with: a second sequential run, a sequential run with jittered objective latency, the parallel evaluator in the chosen pool and in a 16-thread pool with different jitter, the cloned configuration, a clone of the clone run in parallel, and the same configuration object after it has been run on another instance of the problem type (other dimension and domain / matrix); generated configurations optionally contain one of the four diversity measures (their state is part of the digest) and populations of 130-139 individuals; non-trivial = a parallel variant in which objective calls actually completed out of call order (measured by the instrumented objective). random: Random::new(seed) twice gives identical streams and identical children recursively (depth <= 3), different seeds give different 16-word prefixes, config() reports name/seed, children keep the generator type, optimize_with keeps a user-supplied generator and provides one otherwise. batch: par_experiment (generated configurations or the shipped particle-swarm template) over 0-8 runs, 1-3 named problems, pools of 1..16 threads: exact file set (configuration.ron + name_run.cbor), identical files across pool sizes, every log equal to a direct optimize_with(Random::new(run)) followed by the same set-up function (which, in a third of the cases, inserts a generator of its own that must win); distinct by case");
+    ctx.rule("(batch runner: every other single-threaded batch goes into a folder that already holds the logs of an experiment with another configuration - it must run and overwrite.) determinism: case = (template with valid parameters and instance, or a generated configuration of shipped components; seed; thread-pool size in {1,2,3,4,8,16}; latency-jitter stream); the digest (every population level with solutions bit-exact and objectives, best individual, Evaluations, Iterations, serialised log) of a sequential unjittered run is compared with: a second sequential run, a sequential run with jittered objective latency, the parallel evaluator in the chosen pool and in a 16-thread pool with different jitter, the cloned configuration, a clone of the clone run in parallel, and the same configuration object after it has been run on another instance of the problem type (other dimension and domain / matrix); generated configurations optionally contain one of the four diversity measures (their state is part of the digest) and populations of 130-139 individuals; non-trivial = a parallel variant in which objective calls actually completed out of call order (measured by the instrumented objective). random: Random::new(seed) twice gives identical streams and identical children recursively (depth <= 3), different seeds give different 16-word prefixes, config() reports name/seed, children keep the generator type, optimize_with keeps a user-supplied generator and provides one otherwise. batch: par_experiment (generated configurations or the shipped particle-swarm template) over 0-8 runs, 1-3 named problems, pools of 1..16 threads: exact file set (configuration.ron + name_run.cbor), identical files across pool sizes, every log equal to a direct optimize_with(Random::new(run)) followed by the same set-up function (which, in a third of the cases, inserts a generator of its own that must win); distinct by case");
     ctx.assume("rayon's scheduler is not owned by the harness: pool sizes and pseudo-random objective latencies perturb completion order (measured), they do not enumerate interleavings");
     let d = DetCheck;
     let r = RngCheck;
